@@ -7,6 +7,7 @@ mod c10;
 mod c11;
 mod c12;
 mod c13;
+mod c14;
 mod c16;
 mod eng;
 mod lark;
@@ -102,6 +103,13 @@ fn props() -> Vec<Prop> {
         gen: c13::gen_case,
         run: c13::run_case,
     }, Prop {
+        id: "C14",
+        rule: "case = (grammar, vocabulary, mode): mode 0 = all interleavings of k in 2..3 shallow clones x r in 2..3 ops each executed sequentially; 1 = sampled long interleaving over up to 16 shallow/deep clones with mid-way cloning and rollbacks, shared-table hook after every op; 2 = the clones on real threads; 3 = llg_par_compute_mask over cloned C constraints; every clone compared with a private fresh engine; distinct non-trivial = distinct (mode, grammar, clone count)",
+        quick_cases: 32,
+        thorough_cases: 320,
+        gen: c14::gen_case,
+        run: c14::run_case,
+    }, Prop {
         id: "C16",
         rule: "even cases: random op sequences over three SimpleVob registers with sizes around 31/32/33/63/64/...; odd cases: random vocabularies (duplicates, empties, prefixes, marker tokens, long chains, 256-way fan-out) x random DFAs x start prefixes; distinct non-trivial = distinct (op, resulting register) pairs, distinct vocabularies, and distinct (vocab, dfa, start) with a mask that is neither empty nor full",
         quick_cases: 120,
@@ -130,6 +138,24 @@ fn main() {
     if args.len() < 2 {
         eprintln!("usage: llgv <PROP> [--tier quick|thorough] [--seed N] [--out FILE] [--model EXE] [--replay FILE]");
         std::process::exit(2);
+    }
+    if args[1] == "probe" {
+        // llgv probe <lark-file> <text>: feed text byte by byte, then report observables (debug aid)
+        let lark = std::fs::read_to_string(&args[2]).unwrap();
+        let text = args[3].as_bytes().to_vec();
+        let sb = vocab::single_byte_words();
+        let eos = sb.len() as u32 - 1;
+        let w = eng::World::new(sb, eos, false, None).unwrap();
+        let mut m = w.matcher(&engine::Gram::Lark(lark));
+        for (i, b) in text.iter().enumerate() {
+            if let Err(e) = m.consume_token(*b as u32) { println!("byte {i} rejected: {e}"); return; }
+        }
+        println!("accepting={:?} stopped={}", m.is_accepting(), m.is_stopped());
+        println!("mask={:?}", eng::mask_of(&mut m).map(|v| v.iter().map(|t| *t as u8 as char).collect::<String>()));
+        let t0 = std::time::Instant::now();
+        let ff = m.compute_ff_bytes();
+        println!("ff_bytes={:?} in {:?}", String::from_utf8_lossy(&ff), t0.elapsed());
+        return;
     }
     let id = args[1].to_uppercase();
     let mut tier = "quick".to_string();
@@ -188,7 +214,36 @@ fn main() {
             cases.push((p.gen)(&mut rng, k, ctx.thorough));
         }
     }
+    let trace = std::env::var("LLGV_TRACE").is_ok();
+    // watchdog: a case that does not finish is itself a finding (an unbounded loop in the engine);
+    // it cannot be interrupted, so the watchdog writes the result file and ends the process
+    let progress = std::sync::Arc::new(std::sync::Mutex::new((std::time::Instant::now(), String::new(), 0u64)));
+    {
+        let progress = progress.clone();
+        let out = out.clone();
+        let pid = p.id.to_string();
+        let tier = tier.clone();
+        let limit = if ctx.thorough { 600 } else { 120 };
+        std::thread::spawn(move || loop {
+            std::thread::sleep(std::time::Duration::from_secs(2));
+            let (t, case, n) = { let g = progress.lock().unwrap(); (g.0, g.1.clone(), g.2) };
+            if !case.is_empty() && t.elapsed().as_secs() > limit {
+                let case_v: Value = serde_json::from_str(&case).unwrap_or(json!({}));
+                let j = json!({"property": pid, "tier": tier, "seed": seed, "evaluations": n, "distinct_nontrivial": 0,
+                    "rule": "aborted by watchdog", "samples": [], "dist": {}, "skipped": {}, "model_requests": 0, "exhaustive": false, "notes": [],
+                    "failures": [{"kind": "oracle", "signature": format!("{}:hang", pid.to_lowercase()),
+                                  "what": format!("a case did not finish within {limit} s (unbounded loop or runaway computation in the engine)"), "case": case_v}]});
+                if !out.is_empty() { let _ = std::fs::write(&out, serde_json::to_string_pretty(&j).unwrap()); }
+                eprintln!("watchdog: case did not finish within {limit} s");
+                std::process::exit(0);
+            }
+        });
+    }
     for (tag, case) in cases.iter().enumerate() {
+        { let mut g = progress.lock().unwrap(); *g = (std::time::Instant::now(), case.to_string(), tag as u64); }
+        if trace {
+            eprintln!("case {tag}: {}", if std::env::var("LLGV_TRACE").map(|v| v == "full").unwrap_or(false) { case.to_string() } else { trunc(&case.to_string()) });
+        }
         let before = mb.len();
         let r = std::panic::catch_unwind(std::panic::AssertUnwindSafe(|| {
             (p.run)(&ctx, case, tag, &mut rep, &mut mb);
@@ -201,6 +256,7 @@ fn main() {
             mb.expect.truncate(before);
         }
     }
+    { let mut g = progress.lock().unwrap(); g.1.clear(); }
     rep.model_requests = mb.len() as u64;
     match mb.run() {
         Ok(mm) => {
